@@ -5,7 +5,11 @@
 (* of RefRelations(doc).  A mismatch is also compared with the as-is machine *)
 (* (all deviation switches on) so that the harness can classify it.  Lines    *)
 (* may carry a structured filler (fields s, z: ParserRefDoc); the model       *)
-(* demands the relations of the document without it.                          *)
+(* demands the relations of the document without it.  A document with a       *)
+(* construct that spans lines (field o / lines X, C; round 8) is compared     *)
+(* with the machine's relations; the bad record carries what the statement    *)
+(* accepts (acc: both readings of the construct) and whether the observation  *)
+(* is the machine's whose </pre> does not leave pre mode (mode).              *)
 EXTENDS ParserRefDoc, Json, IOUtils
 
 Cases == JsonDeserialize(IOEnv.TRACE_FILE)
@@ -15,9 +19,12 @@ Init == i = 1 /\ bad = <<>>
 Next ==
   /\ i <= Len(Cases)
   /\ \E c \in { Cases[i] } :
-     \E ref \in { RefRelations(Plain(c.doc)) } :
+     \E ref \in { IF HasSpan(c.doc) THEN MachineRelations(c.doc, {}) ELSE RefRelations(Plain(c.doc)) } :
        bad' = IF c.obs = ref THEN bad
               ELSE Append(bad, [i |-> i, expected |-> ref, asis |-> (c.obs = MachineRelations(c.doc, AllDevs)),
+                                acc |-> RefAccept(Plain(c.doc)),
+                                \* is it the machine whose </pre> leaves pre mode only together with a PRE node?
+                                mode |-> (HasSpan(c.doc) /\ c.obs = MachineRelations(c.doc, SpanDevs)),
                                 \* documents with a structured filler: is it the flag-instead-of-counter machine?
                                 flag |-> ((\E j \in 1..Len(c.doc) : HasS(c.doc[j]))
                                           /\ c.obs = MachineRelations(c.doc, ModelDevs)),
